@@ -38,7 +38,6 @@ STRENGTHENED = {
     'C02_3': 'mixed scalar/list parameter forms',
     'C18_3': 'patches with repeated interior knots',
     'C03_3': 'multi-step histories: query, in-place op, query again (get_derivative_spline, derivative, tangent)',
-    'C06_3': 'objects built from ONE basis instance in several directions; caller basis checked afterwards',
     'C12_3': 'volumes periodic in the third direction with 1-3 lowering levels, square and non-square nets',
     'C01_4': '=caught by the pyx translator obligation only (no failing input); generator then extended: bases placed far from the origin (|knots| >= 2^21)',
     'C02_4': 'several evaluation calls on ONE object, checked against the object as built, control points compared bit-for-bit; rational objects with end weights != 1',
